@@ -439,7 +439,7 @@ def sdpa(rng, B, H, S, Skv, Dh, Dv, scale_kind="pre_div", custom=False, masked=F
             w = op.Where(op.IsNaN(w), op.Constant(value=C_zero), w)
         return op.MatMul(w, value)
 
-    mshape = {"B1SK": (B, 1, S, Skv), "11SK": (1, 1, S, Skv), "SK": (S, Skv), "BHSK": (B, H, S, Skv), "B11K": (B, 1, 1, Skv)}[mask_shape]
+    mshape = {"B1SK": (B, 1, S, Skv), "11SK": (1, 1, S, Skv), "SK": (S, Skv), "BHSK": (B, H, S, Skv), "B11K": (B, 1, 1, Skv), "111K": (1, 1, 1, Skv)}[mask_shape]
     kshape = (B, Skv, H, Dh) if key_bshd else (B, H, Skv, Dh)
     m = np.where(rng.random(mshape) < 0.25, -1e4 if dtype == "f16" else -1e9, 0.0).astype(npdt(dtype))
     if masked:
